@@ -168,6 +168,9 @@ func init() { zzHarnesses["zzH_C15"] = zzH_C15 }
 
 // zzH_C15: the reported runtime error names a real failing step.
 func zzH_C15() {
+	if zzParam("opaque") == "1" {
+		zzOpaqueInit(zzOpaqueProtos())
+	}
 	zzDeclHoles()
 	path := zzPath("path")
 	cfg := zzConfig()
